@@ -35,6 +35,8 @@ type Property struct {
 	// Exec executes a plan deterministically, recording into run.
 	Exec func(plan []byte, run *Run)
 	// Runs is the number of runs per tier; WallCap stops a batch early (recorded).
+	// RunsFn, when set, is evaluated in the parent only (it may be expensive).
+	RunsFn  func(tier string) int
 	Runs    map[string]int
 	WallCap map[string]time.Duration
 	// Isolate: a violation may poison the process; stop the worker after it.
@@ -219,6 +221,15 @@ func Main(p *Property) {
 			}
 		}
 		fmt.Println("selftest ok")
+	case "plan":
+		// plan <tier> <id>: print the plan of one run
+		id, _ := strconv.Atoi(os.Args[3])
+		var directed []any
+		if p.Directed != nil {
+			directed = p.Directed(os.Args[2])
+		}
+		os.Stdout.Write(p.planFor(seedFromEnv(), os.Args[2], id, directed))
+		fmt.Println()
 	case "digests":
 		// digests <tier> <n>: print the digest of the first n runs (determinism proof)
 		p.digests()
@@ -346,7 +357,13 @@ func (p *Property) worker() {
 		if len(run.Viol) > 0 {
 			for _, v := range run.Viol {
 				if len(sum.Viol) < 400 {
-					sum.Viol = append(sum.Viol, violRecord{id, v, json.RawMessage(plan)})
+					vp := plan
+					if rp, ok := run.Reduced[v.Key()]; ok {
+						if b, err := json.Marshal(rp); err == nil {
+							vp = b
+						}
+					}
+					sum.Viol = append(sum.Viol, violRecord{id, v, json.RawMessage(vp)})
 				}
 			}
 			if p.Isolate {
@@ -539,6 +556,9 @@ func (p *Property) check(tier string) int {
 	}
 
 	total := p.Runs[tier]
+	if p.RunsFn != nil {
+		total = p.RunsFn(tier)
+	}
 	if v := os.Getenv("VERIF_RUNS"); v != "" {
 		total, _ = strconv.Atoi(v)
 	}
